@@ -282,14 +282,9 @@ class Eyring(Expr):
     parameter_keys = ("temperature",)
 
     def args_dimensionality(self, reaction):
-        order = reaction.order()
+        # conc0 ** (1 - order) in __call__ provides the concentration dependence
         return (
-            {
-                "time": -1,
-                "temperature": -1,
-                "amount": 1 - order,
-                "length": 3 * (order - 1),
-            },
+            {"time": -1, "temperature": -1},
             {"temperature": 1},
             concentration,
         )
